@@ -65,6 +65,24 @@ func c23Variant(ver *common.VersionedTransaction) int {
 	return int(ver.SignaturesMap[0][0][0])
 }
 
+// scratchDir makes a directory for a Badger store: on tmpfs when there is one (the snapshots
+// database syncs every commit), else under the harness scratch directory. Removed at exit.
+func scratchDir(st *State, prefix string) string {
+	base := st.Dir
+	if fi, err := os.Stat("/dev/shm"); err == nil && fi.IsDir() && os.Getenv("VERIF_NO_SHM") == "" {
+		base = "/dev/shm"
+	}
+	dir, err := os.MkdirTemp(base, "verif-"+prefix)
+	if err != nil {
+		dir, err = os.MkdirTemp(st.Dir, prefix)
+		if err != nil {
+			panic(err)
+		}
+	}
+	atExit = append(atExit, func() { os.RemoveAll(dir) })
+	return dir
+}
+
 func c23Open(dir string) *storage.BadgerStore {
 	st, err := storage.NewBadgerStore(verifCustom(), dir)
 	if err != nil {
@@ -93,12 +111,8 @@ func c23Get(st *State) *c23World {
 		w.extras = append(w.extras, e.e)
 		w.ids[e.h] = i + 1
 	}
-	dir, err := os.MkdirTemp(st.Dir, "c23-")
-	if err != nil {
-		panic(err)
-	}
-	w.dir = dir
-	w.store = c23Open(dir)
+	w.dir = scratchDir(st, "c23-")
+	w.store = c23Open(w.dir)
 	c23W = w
 	return w
 }
